@@ -183,7 +183,7 @@ func c13call(w *world.World, path string, streaming bool, body []byte, hdr map[s
 		if res.StatusCode == 200 {
 			return "ok", "", rb
 		}
-		code, msg := "http" + fmt.Sprint(res.StatusCode), ""
+		code, msg := "http"+fmt.Sprint(res.StatusCode), ""
 		if m := reCode.FindSubmatch(rb); m != nil {
 			code = string(m[1])
 		}
